@@ -1478,8 +1478,14 @@ void C2sStreamManager::onEnabled(const SmEnabled &enabled)
     q->debug(u"Stream management enabled"_s);
     m_smId = enabled.id;
     m_canResume = enabled.resume;
+    // the resume location belongs to the stream that is enabled here: an <enabled/> without
+    // location must not leave the address of an earlier (dead) stream behind, or the reconnect
+    // after a loss of THIS stream goes to that stale address instead of the configured host
     if (enabled.resume && !enabled.location.isEmpty()) {
         setResumeAddress(enabled.location);
+    } else {
+        m_resumeHost.clear();
+        m_resumePort = 0;
     }
 
     m_enabled = true;
